@@ -1,8 +1,9 @@
 //go:build verif
 
-package core
+package consumer
 
-// Correspondence probe for the Coq model Burrow.Metrics (C17): "Probe E2E".
+// Correspondence probe for the Coq model Burrow.Metrics (C17): "Probe E2E".  It lives in package consumer (which may import
+// storage, evaluator and httpserver) so that the metadata tombstone goes through the REAL KafkaClient.
 //
 // A case is a whole history.  For every case the probe starts the REAL storage, evaluator and httpserver
 // coordinators (the three structs core.Start builds) on one ApplicationContext, with the HTTP listener on
@@ -17,7 +18,8 @@ package core
 //   B now c t p cnt off | C now c g t p off order ts | O now c g t p owner client | X now c g
 //   DT now c t     topic deletion as the cluster module does it: StorageSetDeleteTopic then httpserver.DeleteTopicMetrics
 //   DG now c g t   HTTP DELETE /v3/kafka/c/consumer/g[/topic/t]   (t = 0: whole group)
-//   GG now c g     tombstone / reaper call sites: StorageSetDeleteGroup then httpserver.DeleteConsumerMetrics
+//   GG now c g     metadata tombstone of group g fed to the real KafkaClient.processConsumerOffsetsMessage of a consumer
+//                  module named "consumer-<cluster>" reading cluster c (decodeGroupMetadata: StorageSetDeleteGroup + DeleteConsumerMetrics)
 //   R now          read phase: GET /metrics first, then every JSON endpoint
 //   RJ now         read phase: every JSON endpoint first, then GET /metrics
 //   RW now / RJW now   the same two read phases WITHOUT emptying the evaluator's result cache first (warm reads)
@@ -31,6 +33,8 @@ package core
 
 import (
 	"bufio"
+	"bytes"
+	"encoding/binary"
 	"encoding/json"
 	"fmt"
 	"io"
@@ -44,6 +48,7 @@ import (
 	"testing"
 	"time"
 
+	"github.com/IBM/sarama"
 	"github.com/spf13/viper"
 	"go.uber.org/zap"
 	"go.uber.org/zap/zapcore"
@@ -598,10 +603,14 @@ func vmHistory(t *vmToks) (res string) {
 			httpserver.DeleteTopicMetrics(vmName("k", c), vmName("t", tp))
 			s.barrier()
 		case "GG":
-			// consumer/kafka_client.go decodeGroupMetadata (tombstone), cluster/kafka_cluster.go reapNonExistingGroups
+			// a group metadata tombstone (key version 2, empty value) through the real consumer module
 			c, g := t.i64(), t.i64()
-			s.send(&protocol.StorageRequest{RequestType: protocol.StorageSetDeleteGroup, Cluster: vmName("k", c), Group: vmName("g", g)})
-			httpserver.DeleteConsumerMetrics(vmName("k", c), vmName("g", g))
+			var key bytes.Buffer
+			binary.Write(&key, binary.BigEndian, int16(2))
+			binary.Write(&key, binary.BigEndian, int16(len(vmName("g", g))))
+			key.WriteString(vmName("g", g))
+			module := &KafkaClient{App: s.app, Log: zap.NewNop(), name: "consumer-" + vmName("k", c), cluster: vmName("k", c)}
+			module.processConsumerOffsetsMessage(&sarama.ConsumerMessage{Topic: "__consumer_offsets", Partition: 0, Offset: int64(i), Key: key.Bytes(), Value: nil})
 			s.barrier()
 		case "DG":
 			c, g, tp := t.i64(), t.i64(), t.i64()
